@@ -87,7 +87,7 @@ func (tr *Translator) assignItems(env *Env, c *FuncContract) (items []assignItem
 					evalFail("map() of non-map")
 				}
 				md, mv, _, _ := u.mapComps(mt)
-				for _, cn := range []string{md, mv, "MLen"} {
+				for _, cn := range []string{md, mv, u.mapLen(mt)} {
 					items = append(items, assignItem{comp: cn, pred: func(a string) string { return eq(a, m.E()) }})
 				}
 				continue
@@ -122,7 +122,11 @@ func (tr *Translator) assignItems(env *Env, c *FuncContract) (items []assignItem
 						items = append(items, assignItem{comp: cn, all: true})
 					}
 				}
-				items = append(items, assignItem{comp: "MLen", all: true})
+				for _, cn := range append([]string{}, u.comps...) {
+					if strings.HasPrefix(cn, "ML_") && !strings.HasSuffix(cn, "_Bool") {
+						items = append(items, assignItem{comp: cn, all: true})
+					}
+				}
 				continue
 			case "everything":
 				return nil, true
@@ -532,7 +536,13 @@ func verifyFunc(prog *ssa.Program, spkg *ssa.Package, contracts *Contracts, fn *
 				name = fmt.Sprint(i)
 			}
 			g := fc.evalClause(env, cl, tr.topKey)
-			tr.oblige("post", "post/"+tr.topKey+"/"+name+suffix, g, r.pos, clauseProps(cl, tr.topProps), cl.Src)
+			if parts := splitGoal(g, 8); len(parts) > 1 && exclusionOf(c, cl) == nil {
+				for pi, pg := range parts {
+					tr.oblige("post", fmt.Sprintf("post/%s/%s.%d%s", tr.topKey, name, pi, suffix), pg, r.pos, clauseProps(cl, tr.topProps), cl.Src)
+				}
+			} else {
+				tr.oblige("post", "post/"+tr.topKey+"/"+name+suffix, g, r.pos, clauseProps(cl, tr.topProps), cl.Src)
+			}
 			// `excluding name @@ H`: outside the witness class H of a recorded finding the clause must still hold
 			for _, ex := range c.Clauses {
 				if ex.Kind == "excluding" && ex.Name == cl.Name && cl.Name != "" {
